@@ -152,6 +152,8 @@ func init() {
 		"tagignore":            "ti",
 		"tagshow":              "ts",
 		"taghide":              "th",
+		"tagroot":              "tagroot",
+		"tagleaf":              "tagleaf",
 		"mean":                 "mean",
 		"sample_index":         "si",
 		"normalize":            "norm",
